@@ -31,3 +31,6 @@ pub uninterp spec fn dur_secs(d: Duration) -> u64;
 pub assume_specification [Duration::as_secs] (d: &Duration) -> (r: u64) ensures r == dur_secs(*d);
 pub uninterp spec fn dur_is_zero(d: Duration) -> bool;
 pub assume_specification [Duration::is_zero] (d: &Duration) -> (r: bool) ensures r == dur_is_zero(*d);
+
+pub uninterp spec fn dur_from_secs(s: u64) -> Duration;
+pub assume_specification [Duration::from_secs] (s: u64) -> (r: Duration) ensures r == dur_from_secs(s);
